@@ -20,6 +20,7 @@ import RedoModel.ParFWire
 import RedoModel.RowCacheWire
 import RedoModel.CyclesWire
 import RedoModel.RunLoopWire
+import RedoModel.TokLoopWire
 import RedoModel.Base
 open RedoModel RedoModel.Wire
 
@@ -160,6 +161,7 @@ def respond (line : String) : String :=
   | ["parf-serial", graph, kg, tops] => ParFWire.respondSerial graph kg tops
   | ["waits-replay", reach, evs] => WaitsWire.respond reach evs
   | ["runloop-replay", kg, evs] => RunLoopWire.respond kg evs
+  | ["tokloop-replay", kind, evs] => TokLoopWire.respond kind evs
   | ["base-of", cwd, redos, targets] =>
     -- cwd: hex; redos: `,`-separated hex directories that contain `.redo` (`-` = none); targets: `,`-separated hex spellings
     match dec cwd, (if redos = "-" then some [] else (redos.splitOn ",").mapM dec), (targets.splitOn ",").mapM dec with
